@@ -36,10 +36,12 @@ type srvInfo struct {
 	PortHi    int
 	Web       int
 	SSHPort   int
-	SSHKeys   bool // ssh gateway with authorizedKeysFile
-	SkipIss   bool // auth.oidc.skipIssuerCheck
-	SkipExp   bool // auth.oidc.skipExpiryCheck
-	NoInc     bool // no incumbent (oidc skip-option matrix servers)
+	SSHKeys   bool         // ssh gateway with authorizedKeysFile
+	SkipIss   bool         // auth.oidc.skipIssuerCheck
+	SkipExp   bool         // auth.oidc.skipExpiryCheck
+	NoInc     bool         // no incumbent (oidc skip-option matrix servers)
+	Terse     bool         // detailedErrorsToClient = false
+	SSHLogins atomic.Int64 // legitimate logins through this server's ssh gateway so far
 
 	Inc       *honest // scripted incumbent
 	IncPort   int
@@ -90,6 +92,9 @@ func (s *srvInfo) cfgText() string {
 		fmt.Fprintf(&b, "transport.heartbeatTimeout = %d\n", s.HBTimeout)
 	} else if !s.Mux {
 		fmt.Fprintf(&b, "transport.heartbeatTimeout = -1\n")
+	}
+	if s.Terse {
+		fmt.Fprintf(&b, "detailedErrorsToClient = false\n")
 	}
 	if s.Web > 0 {
 		fmt.Fprintf(&b, "webServer.addr = \"127.0.0.1\"\nwebServer.port = %d\n", s.Web)
